@@ -124,6 +124,10 @@ def invoke(fn, names_, args, environment, pos):
     except CklRuntimeError as e:
         e.stacktrace.append(getFuncallString(fn, args_) + " " + str(pos))
         raise
+    except RecursionError:
+        raise CklRuntimeError(
+            ValueString("ERROR"), "Maximum recursion depth exceeded", pos
+        )
 
 
 class NodeAnd:
